@@ -1,29 +1,36 @@
 package wpool
 
+import "github.com/glebziz/fs_db/internal/verifhook"
+
 func (p *Pool) lazySend(e Event) {
 	p.listM.Lock()
 	defer p.listM.Unlock()
 
 	p.el.PushBack(p.pool.Acquire().SetV(e))
+	verifhook.At("wpool.lazy.pushed")
 	p.lazyResend()
 }
 
 func (p *Pool) lazyResend() {
 	if !p.lazySendM.TryLock() {
+		verifhook.At("wpool.lazy.tryfail")
 		return
 	}
 
 	p.sendWg.Add(1)
 	go func() {
 		defer func() {
+			verifhook.At("wpool.flusher.exit")
 			p.lazySendM.Unlock()
 			p.sendWg.Done()
 		}()
 
 		for {
+			verifhook.At("wpool.flusher.loop")
 			p.listM.Lock()
 			n := p.el.PopBack()
 			p.listM.Unlock()
+			verifhook.At("wpool.flusher.popped")
 			if n == nil {
 				return
 			}
@@ -32,6 +39,7 @@ func (p *Pool) lazyResend() {
 			case <-p.ctx.Done():
 				return
 			case p.ch <- n.V():
+				verifhook.At("wpool.flusher.sent")
 				p.pool.Release(n)
 			}
 		}
